@@ -83,14 +83,24 @@ def supply (tok : String) (amount : Rat) (coll : Bool) : M Unit := do
 def commitFlag (tok : String) (info : SupplyInfo) : M Unit :=
   modify (fun s => { s with supplies := AList.set s.supplies tok info, collC := .fresh, supC := .fresh })
 
+/-- `try: m  except Exception: fin; raise` for a `fin` that cannot raise: the state is repaired only on the failure path -/
+def onError {α : Type} (m : M α) (fin : St → St) : M α := fun s =>
+  match m s with
+  | (.ok a, s1) => (.ok a, s1)
+  | (.error e, s1) => (.error e, fin s1)
+
+/-- `change_collateral(token, collateral)` as repaired: switching a flag *on* needs `usageAsCollateralEnabled` (the rule of
+    `supply`, checked before anything is written); when the health-factor read itself raises, the flag is written back and
+    the two caches are reset again before the exception leaves the call. -/
 def changeCollateral (tok : String) (coll : Bool) : M Unit := do
   guardOpen env
   let info ← lookupSupply tok
   if info.coll == coll then setUpdated
   else do
+    checkCanCollateral env tok coll
     commitFlag tok { info with coll := coll }
     if !coll then do
-      let hf ← healthFactor cx env
+      let hf ← onError (healthFactor cx env) (fun s => (commitFlag tok info s).2)
       if hf.ltR Gen.aaveHfThreshold then do
         commitFlag tok info
         throw .hfLow
